@@ -745,6 +745,26 @@ def replay_encode(x, ref, sp):
     return w.value
 
 
+def replay_encode_compressed(x, ref, sp, site):
+    """The real Encoder.process_numeric_compressed on a 2-subset column that reaches the given scaling site."""
+    sys.path.insert(0, REPO_DIR)
+    from pybufrkit.encoder import Encoder
+    from pybufrkit.coder import CoderState
+
+    class Wr(object):
+        def __init__(self):
+            self.values = []
+
+        def write_uint(self, value, nbits):
+            self.values.append(value)
+    other = x if site == 0 else x + 4096.0 / sp     # site 0: all subsets equal; site 1: x is the minimum of differing values
+    st = CoderState(True, 2, [[x], [other]])
+    w = Wr()
+    enc = Encoder.__new__(Encoder)
+    enc.process_numeric_compressed(st, w, None, 60, sp, ref)
+    return w.values[0]      # the minimum, i.e. the scaled x
+
+
 def main(argv=None):
     ap = argparse.ArgumentParser()
     ap.add_argument('set')
@@ -770,7 +790,11 @@ def main(argv=None):
             # L2: the real encoder kernel on the concrete double must differ from round-to-nearest
             x, ref = v['model']['v'], v['model'].get('ref', 0)
             sp = 1.0 * 10 ** v['scale']
-            got = replay_encode(x, ref, sp)
+            site = v.get('site', '')
+            if site.startswith('process_numeric_compressed#'):
+                got = replay_encode_compressed(x, ref, sp, int(site.split('#')[1][0]))
+            else:
+                got = replay_encode(x, ref, sp)
             exp = int(round(x * sp)) - ref
             out['reproduced'] = (got != exp)
             out['violation'] = {'v': x, 'ref': ref, 'got': got, 'round_to_nearest': exp}
